@@ -17,13 +17,12 @@ RULE = ('incr: histories on real trees (layouts: single target, two projects wit
 
 def run(ck):
     d = vf.scratch_dir('C02')
-    n = 150 if ck.tier == 'quick' else 2500
+    n = 300 if ck.tier == 'quick' else 2500
     ck.rule(RULE)
-    batch = 50 if ck.tier == 'quick' else 250
-    for b in range(0, n, batch):
-        hists = dict(('h%d' % i, incr.gen_history(ck.rng, 'edits')) for i in range(b, min(n, b + batch)))
-        incr.check_histories(ck, d, hists, 'b%d' % b, ('C02',))
-        vf.sh(['rm', '-rf', d + '/trees_b%d' % b])
+    batch = 75 if ck.tier == 'quick' else 250
+    batches = [('b%d' % b, dict(('h%d' % i, incr.gen_history(ck.rng, 'edits')) for i in range(b, min(n, b + batch))))
+               for b in range(0, n, batch)]
+    incr.check_histories_parallel(ck, d, batches, ('C02',))
     incr.flush(ck)
 
 
